@@ -169,8 +169,8 @@ open DataReader in
 def dataRead : Nat → DR → W → Nat → Bytes → (DR × W × Bytes × Res × Option RErr)
   | 0, r, w, _, acc => (r, w, acc, .ueof, some .eof)
   | fuel + 1, r, w, k, acc =>
-    if r.limited && r.n == 0 then
-      -- budget used up: only the end marker may follow (Peek(3))
+    if r.limited && r.n == 0 && r.state != .eof then
+      -- budget used up: only the end marker may follow (Peek(3)); a reader that has reported end-of-file keeps doing so
       let (w1, p) := peek3 (fuelOf w) w
       if r.state == .bol && p == DataReader.marker then
         ({ r with state := .eof }, { w1 with buf := w1.buf.drop 3 }, acc, .eof, none)
